@@ -141,6 +141,24 @@ Theorem C13_series_independent : forall step (ss : series) fuel start end_ lookb
 Proof. intros. eapply series_independent; eassumption. Qed.
 Print Assumptions C13_series_independent.
 
+(** The headline for ANY FINITE SET OF SERIES.  MergeRanges groups by fingerprint (labels.Hash); streamSampleStream folds
+    all series of a response into one list; RangeQuery concatenates the responses in arrival order.  For every finite set
+    [ss] of series with pairwise distinct fingerprints, every presence pattern of each (a series with no sample in a slice
+    simply does not occur in that response, so the set of series differs from response to response), every response
+    listing its series in an order of its own ([ord]), and every arrival order of the responses: the result contains, for
+    every series of [ss], exactly the runs of that series on the ONE unsliced grid - and no range of any other series. *)
+Theorem C13_sliced_eq_unsliced_all_series : forall step (ss : series) (ord : tr -> series) fuel start end_ lookback sl arrival,
+  sec <= step -> step <= max_int64 - 2 * hour ->
+  NoDup (map fst ss) -> (forall s, Permutation (ord s) ss) ->
+  query_slices fuel start end_ lookback step = Some sl ->
+  Permutation arrival sl ->
+  exists res,
+    sliced_ord (merge_fuel (flat_map (fun s => per_slice step (ord s) s) arrival)) step ord arrival = Some res /\
+    (forall fp pres, In (fp, pres) ss -> group_of fp res = runs_of fp step pres (first_start sl start) end_) /\
+    (forall fp, ~ In fp (map fst ss) -> group_of fp res = []).
+Proof. intros. eapply all_series; eassumption. Qed.
+Print Assumptions C13_sliced_eq_unsliced_all_series.
+
 (** Non-vacuity: a 7-minute step (does not divide 2h; slice = 119m), 5 slices arriving out of order
     (1,0,4,3,2), a series present over three slice boundaries with ONE missing sample exactly on a slice
     boundary: the premises hold, the pipeline evaluates, and the result is the two expected ranges (a gap of
@@ -171,3 +189,24 @@ Proof.
   - vm_compute. reflexivity.
 Qed.
 Print Assumptions C13_nonvacuous.
+
+(** Non-vacuity of the multi-series statement: two series on the same query as above, the second one present only during
+    the third slice (so it occurs in one response only), responses listing their series in alternating order. *)
+Definition ex_pres2 : presence := fun t => (1654056060 * sec <=? t) && (t <=? 1654059000 * sec).
+Definition ex_ss : series := [(1%N, ex_pres); (2%N, ex_pres2)].
+Definition ex_ord (s : tr) : series := if Z.even (fst s / hour) then ex_ss else rev ex_ss.
+
+Example C13_nonvacuous_multi :
+  exists sl res, query_slices 100 ex_start ex_end (8 * hour) ex_step = Some sl /\
+    let arrival := rev (skipn 2 sl ++ firstn 2 sl) in
+    sliced_ord (merge_fuel (flat_map (fun s => per_slice ex_step (ex_ord s) s) arrival)) ex_step ex_ord arrival = Some res /\
+    group_of 1 res = ex_expected /\
+    group_of 2 res = runs_of 2 ex_step ex_pres2 (first_start sl ex_start) ex_end /\
+    group_of 2 res <> [] /\
+    exists s1 s2, In s1 sl /\ In s2 sl /\ ex_ord s1 <> ex_ord s2.
+Proof.
+  eexists. eexists. split; [vm_compute; reflexivity|]. cbv zeta. split; [vm_compute; reflexivity|].
+  split; [vm_compute; reflexivity|]. split; [vm_compute; reflexivity|]. split; [vm_compute; discriminate|].
+  eexists. eexists. split; [left; reflexivity|]. split; [right; left; reflexivity|]. vm_compute. discriminate.
+Qed.
+Print Assumptions C13_nonvacuous_multi.
